@@ -865,6 +865,12 @@ def handleLine (line : String) : Option (List String × Nat × Nat) :=
   | id :: "bigseq" :: rest => handleBigSeq id rest
   | id :: "alias" :: rest => handleAlias id rest
   | id :: "parse" :: rest => handleParse id rest
+  | id :: "conc" :: rest =>
+    (match rest.getLast? with
+     | some "same" => some ([], 0, 0)
+     | some "differs" => some (propfail id "C18" "a call run concurrently over shared context/operands returned a different outcome than when run alone")
+     | some "RACE" => some (propfail id "C18" "the Go race detector reported a data race")
+     | _ => none)
   | id :: "text" :: rest => handleText id rest
   | id :: "float" :: rest => handleFloat id rest
   | id :: "api" :: rest =>
